@@ -522,6 +522,36 @@ def r9_constraint_scans(chk, prog):
               '; '.join(off) or 'no store into mConstraints')
 
 
+def r10_value_constraint_scans(chk, prog):
+    """value constraints over a list of arguments (differ, ...) are checked at the end for EVERY pair: the loops
+    over the handlers of the constraint are left only when all handlers were visited or by the exception"""
+    n = 0
+    for f in prog.functions:
+        if f.short != 'checkEndCondition' or f.body is None:
+            continue
+        cfg = f.cfg
+        for loop in loops_in(f):
+            kids = children(loop)
+            rng = kids[0] if loop.get('k') == 'CXXForRangeStmt' else None
+            if rng is None or not mentions_field(rng, 'mArgHandlers'):
+                continue
+            n += 1
+            h = loop_header(cfg, loop)
+            body = cfg.succ[h][0]
+            seen = cfg.reach((body, 0), lambda pos, e: pos[0] == h)
+            off = []
+            if any(('exit_from', p) in seen for p in cfg.pred[cfg.exit] if cfg.exit_kind(p) == 'return'):
+                off.append('the scan can return before all arguments of the constraint were compared')
+            out = cfg.succ[h][1]
+            # leaving an inner loop into the enclosing loop's next iteration is fine; leaving towards the code
+            # behind the loop (break) is not
+            if out is not None and out != cfg.exit and (out, 0) in seen:
+                off.append('the scan can be left by break before all arguments were compared')
+            chk.check(not off, 'R10', f.name, 'the end check of a value constraint compares every argument of the '
+                      'constraint (with every other)', f.loc(loop), '; '.join(off))
+    chk.require(n >= 2, 'loops over the handlers of a value constraint found: %d' % n)
+
+
 def run(chk):
     prog, units = rules.prog_args_program()
     chk.units = units
@@ -548,5 +578,7 @@ def run(chk):
     r5_unknown(chk, prog)
     r6_cardinality(chk, prog)
     r9_constraint_scans(chk, prog)
+    chk.rule('R10', 'value constraints compare every argument of the constraint at the end', 2)
+    r10_value_constraint_scans(chk, prog)
     from . import c02_shapes
     c02_shapes.run(chk, prog)
